@@ -591,13 +591,16 @@ class DotGeneralPlugin(PrimitiveLeafPlugin):
         )
 
         desired_name = getattr(out_spec, "name", None) or ctx.fresh_name("Gemm")
+        gemm_attrs: dict[str, Any] = {"alpha": 1.0, "beta": 0.0}
+        if lhs_contract[0] == 0:
+            # contraction over the leading lhs axis: Gemm computes A^T @ B
+            gemm_attrs["transA"] = 1
         result = ctx.builder.Gemm(
             lhs_val,
             rhs_input,
             bias_val,
-            alpha=1.0,
-            beta=0.0,
             _outputs=[desired_name],
+            **gemm_attrs,
         )
 
         _stamp_type_and_shape(result, out_shape)
